@@ -255,6 +255,21 @@ def t_set_pointer(E, old_mode, new_mode):
     E.prove(cs.seeks == [(pos,)], 'the pointer is set in the code of the new mode')
 
 
+def t_basic_handlers(E, n):
+    """EventQueues.set_basic_event_handlers: every enabled handler takes input, in order, whether or not it
+    is stopped at the moment - a stopped trap must still record the occurrence (it fires after ON / RETURN)."""
+    from pcbasic.basic import eventcycle
+    q = object.__new__(eventcycle.EventQueues)
+    class _H(object):
+        def __init__(self, stopped):
+            self.stopped = stopped
+    hs = [_H(E.bool('stopped[%d]' % i)) for i in range(n)]
+    r = E.call(q.set_basic_event_handlers, iter(hs))
+    E.prove(not r.raised, 'never raises')
+    got = list(q._basic_handlers)
+    E.prove(len(got) == n and all(a is b for a, b in zip(got, hs)), 'all enabled handlers are in the input chain, in order, stopped or not')
+
+
 TASKS = [
     Task('Interpreter.handle_basic_events', t_dispatch, covers=('dispatched', 'not dispatched'),
          cases=[{'run_mode': m, 'suspended': s} for m in (True, False) for s in (True, False)]),
@@ -266,6 +281,7 @@ TASKS = [
          cases=[{'kind': k} for k in ('key', 'key-defined', 'pen', 'strig', 'timer')]),
     Task('Interpreter.set_pointer (event handlers only in run mode)', t_set_pointer,
          cases=[{'old_mode': a, 'new_mode': b} for a in (False, True) for b in (False, True)]),
+    Task('EventQueues.set_basic_event_handlers', t_basic_handlers, cases=[{'n': n} for n in (0, 1, 3)]),
 ]
 
 ASSUMPTIONS = [
